@@ -1,0 +1,26 @@
+//go:build verif
+
+// Package verifhook provides named hook points for the runtime-verification
+// harness. It only does anything when built with the "verif" tag; see
+// hook_off.go for what production builds get.
+package verifhook
+
+import "sync/atomic"
+
+var handler atomic.Value // of func(point string)
+
+// Set installs the function called at every hook point (nil to remove it).
+func Set(fn func(point string)) {
+	if fn == nil {
+		fn = func(string) {}
+	}
+	handler.Store(fn)
+}
+
+// At marks a hook point. The installed handler may delay, block until
+// released, or terminate the process.
+func At(point string) {
+	if fn, ok := handler.Load().(func(string)); ok {
+		fn(point)
+	}
+}
